@@ -233,6 +233,60 @@ def run(ctx):
                    corr_ok and not bad_cases and len(cases) >= min(10, ncorr),
                    "mismatching recipes: %s" % [json.dumps(cases[k][0])[:200] for k in bad_cases[:4]])
 
+    # ------------------------------------------------------------------ Simulationarchive delta snapshots
+    import c05_archive
+    hists = c05_archive.histories(rebound, rng, thorough=ctx.thorough)
+    arch_fails, dcases = [], []
+    for h in hists:
+        try:
+            f, c = c05_archive.run_history(rebound, gen, h, want_streams=True)
+        except Exception as e:
+            f, c = [{"key": "archive:exception", "history": h["label"], "detail": repr(e)}], []
+        arch_fails += f
+        dcases += c
+        ctx.case(key=("archive", h["label"]))
+    # model vs library on the delta blobs: prefer snapshots whose delta contains a vanished (size 0) field
+    def has_vanished(dl):
+        pos = 0
+        import struct as _st
+        while pos + 16 <= len(dl):
+            t, _, n = _st.unpack_from("<I4sQ", dl, pos)
+            if t == 9999:
+                return False
+            if n == 0:
+                return True
+            pos += 16 + n
+        return False
+    dcases = [c for c in dcases if len(c[0]) < 30000]
+    van = [c for c in dcases if has_vanished(c[1])]
+    oth = [c for c in dcases if not has_vanished(c[1])]
+    ndl = ctx.scale(24, 150)
+    dsel = van[:ndl * 2 // 3] + oth[:: max(1, len(oth) // max(1, ndl // 3))][:ndl // 3]
+    djobs = []
+    for c0 in range(0, len(dsel), 3):
+        body = ("From Coq Require Import NArith List.\nFrom RV Require Import C05.Model C05.Run.\nImport ListNotations.\n"
+                "Open Scope N_scope.\nDefinition b0 : list N := %s.\n" % coq_list(b0))
+        terms = []
+        for j, (s0, dl, rest_b, live_b, tag) in enumerate(dsel[c0:c0 + 3]):
+            body += "Definition s%d : list N := %s.\nDefinition d%d : list N := %s.\nDefinition r%d : list N := %s.\n" % (
+                j, coq_list(s0), j, coq_list(dl), j, coq_list(rest_b))
+            terms.append("delta_corr b0 s%d d%d r%d" % (j, j, j))
+        body += "Eval vm_compute in (bad_idx [%s]).\n" % "; ".join(terms)
+        djobs.append(("c05_delta_%d" % (c0 // 3), body))
+    dbad, dok = [], True
+    for (name, ok, out), c0 in zip(vlib.coq_eval_many(djobs, timeout=600), range(0, len(dsel), 3)):
+        bad = vlib.parse_coq_list_nat(out) if ok else None
+        if bad is None:
+            dok = False
+            ctx.obligation("correspondence:C05:" + name, False, out[-1500:])
+        else:
+            dbad += [c0 + k for k in bad]
+    ctx.traces += len(dsel) if dok else 0
+    ctx.obligation("correspondence:C05 Coq reader(snapshot 0) ; Coq reader(delta blob) ; Coq writer == library save(restored snapshot k) on %d "
+                   "Simulationarchive snapshots (%d of them with vanished = size-0 array fields)" % (len(dsel), len([c for c in dsel if has_vanished(c[1])])),
+                   dok and not dbad and len([c for c in dsel if has_vanished(c[1])]) >= 5,
+                   "mismatching snapshots: %s" % [dsel[k][4] for k in dbad[:5]])
+    ctx.extra["archive_histories"] = {"histories": len(hists), "snapshots": len(dcases), "with_vanished_fields": len(van)}
     # ------------------------------------------------------------------ library-only oracles
     t0 = time.time()
     fails = []
@@ -292,7 +346,7 @@ def run(ctx):
                                                                  or any(op.get("op") in ("add", "remove") for op in rec.get("after", []))):
             f["key"] = "continue:bs:N_changed_before_save"
     seen = set()
-    for f in fails + mfails:
+    for f in fails + mfails + arch_fails:
         key = f.get("key") or ("%s:%s" % (f.get("stage", "lost"), ",".join(f.get("fields", [])[:3]) or f.get("member", "")))
         if key in seen:
             continue
